@@ -40,6 +40,7 @@ type FuncSpec struct {
 	Used        bool
 	Opaque      bool
 	FreshFields bool
+	DeleteSites map[string]deleteSites
 	InsertOnly  map[string][]string // local map variable -> tags: stores never overwrite a present key
 	Unclaimed   map[string]string   // obligation-name suffix -> reason
 	Lets        []*LetSpec
@@ -48,6 +49,11 @@ type FuncSpec struct {
 // LetSpec: a contract-local specification function determined by the pre-state:
 //
 //	let anc(k int) *Directive : axiom1 ; axiom2
+type deleteSites struct {
+	N    int
+	Tags []string
+}
+
 type LetSpec struct {
 	Name   string
 	Params []QVar
@@ -156,7 +162,7 @@ func NewSpecDB() *SpecDB {
 }
 
 var clauseKW = map[string]bool{"requires": true, "ensures": true, "ghostensures": true, "modifies": true, "decreases": true, "loop": true,
-	"inline": true, "trusted": true, "pure": true, "tag": true, "noframe": true, "opaque": true, "unclaimed": true, "let": true, "letpost": true, "oncallback": true, "insertonly": true, "freshfields": true}
+	"inline": true, "trusted": true, "pure": true, "tag": true, "noframe": true, "opaque": true, "unclaimed": true, "let": true, "letpost": true, "oncallback": true, "insertonly": true, "freshfields": true, "deletesites": true}
 var topKW = map[string]bool{"func": true, "functype": true, "extern": true, "pred": true, "table": true, "specfn": true,
 	"axiom": true, "lemma": true, "ghostfield": true, "iface": true, "const": true, "ghostvar": true, "globalinv": true, "guardedby": true, "readers": true, "writers": true, "globalwriters": true, "mapranges": true, "equiv": true}
 
@@ -362,6 +368,21 @@ func (db *SpecDB) LoadFile(path string, pkg string) error {
 				}
 				cur.InsertOnly[n] = tags
 			}
+		case "deletesites":
+			// deletesites [Cnn] m N : the local map m has exactly N delete(m, k) sites in this function
+			tags, body := splitTags(rest)
+			f := strings.Fields(body)
+			if len(f) != 2 {
+				return fail("deletesites <map> <count>")
+			}
+			n, err := strconv.Atoi(f[1])
+			if err != nil {
+				return fail("deletesites count: %v", err)
+			}
+			if cur.DeleteSites == nil {
+				cur.DeleteSites = map[string]deleteSites{}
+			}
+			cur.DeleteSites[f[0]] = deleteSites{N: n, Tags: tags}
 		case "freshfields":
 			// the callee initialises reference fields of the fresh object it returns (possibly with objects newer than
 			// the caller's heap terms): those field heaps are re-based at the call site
